@@ -6,9 +6,13 @@ the solver completed the step and the state it reached differs, in the chosen no
 less than the tolerance from the state reached by the PREVIOUS call (compared as values,
 not through the solver's reused buffer), and NoSteadyState otherwise.  That the criterion
 implies closeness to the analytic steady state is assumption A-C15; the bounded part
-(bounded/C15.py) checks it on enumerated linear networks."""
+(bounded/C15.py) checks it on enumerated linear networks.  Second session
+(contracts/simulator.py): Simulator.simulate_to_steady_state records a failed search as
+exactly one failure and adds no segment, and Simulator.get_result hands out the recorded
+failure whenever there is one - "absence of a steady state is reported as failure"."""
 from props._runner import run
 
 if __name__ == "__main__":
     run("C15", "proof", files=["steady_state.py"],
+        more_sessions=[(["simulator.py"], ["mxlpy.simulator:Simulator.get_result", "mxlpy.simulator:Simulator.simulate_to_steady_state"])],
         notes="C15: criterion + aliasing-aware loop invariant proved; numerical adequacy assumed (A-C15) and exercised by the bounded stand-in")
